@@ -245,6 +245,31 @@ impl RoutingTable {
     }
 }
 
+#[cfg(mainline_verif)]
+#[allow(missing_docs)]
+impl RoutingTable {
+    pub fn verif_reset_id(&mut self, id: Id) {
+        self.reset_id(id)
+    }
+    /// Buckets as (distance key, entries in bucket order).
+    pub fn verif_buckets(&self) -> Vec<(u8, Vec<Node>)> {
+        self.buckets
+            .iter()
+            .map(|(d, b)| (*d, b.nodes.clone()))
+            .collect()
+    }
+    /// (estimates_count, estimates_sum, responders_count, responders_estimates_sum, subnets_sum)
+    pub fn verif_stats(&self) -> (usize, f64, usize, f64, usize) {
+        (
+            self.dht_size_estimates_count,
+            self.dht_size_estimates_sum,
+            self.responders_samples_count,
+            self.responders_size_estimates_sum,
+            self.responders_subnets_sum,
+        )
+    }
+}
+
 pub struct RoutingTableIterator<'a> {
     bucket_index: u8,
     node_index: usize,
